@@ -242,6 +242,12 @@ def binop(st: State, op: str, a: V, b: V, spec=False, alloc=None) -> V:
         # %-formatting with a tuple of strings: an opaque function of the template and each operand
         f = UF("fmt_strs%d" % len(b.items), *([z3.StringSort()] * (len(b.items) + 2)))
         return V(STR, f(a.t, *[i.t for i in b.items]))
+    if ka == "str" and op == "%" and kb == "str" and z3.is_string_value(z3.simplify(a.t)):
+        tmpl = z3.simplify(a.t).as_string()
+        if tmpl.count("%") == 1 and tmpl.count("%s") == 1:
+            # 'lit%slit' % <str>: exactly the concatenation (operand is a str, so %s inserts it unchanged)
+            pre, post = tmpl.split("%s")
+            return V(STR, z3.Concat(z3.StringVal(pre), b.t, z3.StringVal(post)))
     if ka == "str" and op == "%":
         # %-formatting: value is an opaque function of the operands
         return V(STR, UF("fmt_%s" % b.ty.kind, z3.StringSort(), z3.IntSort(), z3.StringSort())(a.t, box(b).t))
